@@ -516,3 +516,22 @@ CHECKS['C08'].update({
 CHECKS['C04'].update({
     'text': CHECKS['C04']['text'] + " Tie K2-capture-spans: the `**` group spans re.fullmatch reports under REALPATH vs Re.fullmatchCap of the model AST (the spans _fs_match walks).",
 })
+CHECKS['C03'].update({
+    'text': "LOWER BOUND AND SANDWICH FOR WHOLE PATTERNS (C03lower): C03_lower_faithful — fnmatch mode, faithful port, every spelling the strict reader accepts whose first token "
+            "is a written `.`: the regex accepts EVERY name (hidden or not) exactly when it is in the documented language (the match is granted); C03_path_must / C03_path_may "
+            "(tidy path compiler) and C03_read_sandwich (faithful port on every accepted path spelling, via pass_read_path): pathLangR .must pp s -> FullMatch s -> pathLangR .may "
+            "pp s for ARBITRARY paths s (hidden pieces, `.`/`..`), which removes the `all pieces visible` hypothesis of the C02 theorems; C03_matchbase_must/_may/_faithful for the "
+            "implicit MATCHBASE prefix. Each excluded defect is a forced hypothesis with a decide+kernel witness (D4_forced, D5_forced, D1p_forced_must, D3_forced_*, D8_forced, "
+            "D6_outside). " + CHECKS['C03']['text'],
+})
+CHECKS['C09'].update({
+    'text': "WINDOWS RULES (C09win): C09_escape_fn_win (fnmatch under FORCEWIN: language of escape(s) = WinLitEq — ASCII case unless CASE, `/` ~ `\\\\`), C09_escape_path_win "
+            "(path mode without a drive: PathLitEq on the separator-normalised strings), C09_escape_drive_win (the drive / UNC carve-out of escape(unix=False), modelled "
+            "by a hand port of RE_WIN_DRIVE in back-tracking order, 40 000 random comparisons with the real escape: language = literal case-insensitive drive ++ tail) under the "
+            "decidable agreement hypothesis DriveAgree, PROVED for drive letters, plain UNC, device letter and device UNC prefixes (every separator choice, every rest, every "
+            "flag record) and evaluated on the GLOBAL device forms; it fails exactly on KF-D28 (kf_d28_disagree) and on the new finding KF-D33 (a doubled separator between "
+            "host and share: unc_double_sep_disagree). " + CHECKS['C09']['text'],
+    'note': CHECKS['C09']['note'].replace("the Windows drive/UNC carve-out of `escape(unix=False)` is searched through the API, not proved", "the Windows drive/UNC carve-out is "
+            "proved under DriveAgree (see text)") + " `[a-z]` under re.I is modelled as the ASCII letters; CPython's re.I also lets U+212A (Kelvin sign) and U+017F (long s) match, so "
+            "`_get_win_drive('\\u212a:/x')` finds a drive the model does not (str patterns only; not sampled by K3).",
+})
